@@ -220,3 +220,8 @@ UNIT = {
       generics='T: ObjectWrite, ', extra=NT_WRITER_RW, loops=NT_WRITER_LOOPS, attrs=['#[verifier::loop_isolation(false)]']),
  },
 }
+
+# C10 (documents built from scratch reload equal, mechanism "derived dictionary writers incl. indirect fields"): the Date pair writes/reads /CreationDate and /ModDate of the information dictionary
+# -- the same obligations also count for C10 (no contract changed).
+for k__ in ['parse_or', 'date_from_primitive', 'date_to_primitive']:
+    UNIT['items'][k__]['props'] = list(UNIT['items'][k__]['props']) + ['C10']
